@@ -276,7 +276,7 @@ def toKeyset (es : List MEntry) (prefixOf : MEntry → Nat) : PKeyset :=
 /-- **Keyset round trip**: writing a well-formed handle's entries to a keyset message and reading it
     back yields the same ids, statuses, primary flags and order. -/
 theorem handleOf_toKeyset (es : List MEntry) (wf : WFHandle es) (prefixOf : MEntry → Nat)
-    (hp : ∀ e, prefixOf e = 1 ∨ prefixOf e = 2 ∨ prefixOf e = 3 ∨ prefixOf e = 4) :
+    (hp : ∀ e, prefixOf e = 1 ∨ prefixOf e = 2 ∨ prefixOf e = 3 ∨ prefixOf e = 4 ∨ prefixOf e = 5) :
     (handleOf (toKeyset es prefixOf)).map (·.map fun e => (e.id, e.status, e.isPrimary)) =
       some (es.map fun e => (e.id, e.status, e.isPrimary)) := by
   obtain ⟨p, hpf, hpm, hpp, hpen⟩ := wf_primary es wf
